@@ -15,7 +15,7 @@ def run_verus(gen_path, rlimit=None, threads=8, extra=None, timeout=1800):
     t0 = time.time()
     try:
         p = subprocess.run(cmd, capture_output=True, text=True, timeout=timeout,
-                           cwd=os.path.dirname(gen_path))
+                           cwd=os.path.dirname(gen_path), env=dict(os.environ, RUST_MIN_STACK='2000000000'))
     except subprocess.TimeoutExpired:
         return {'cmd': ' '.join(cmd), 'timeout': True, 'wall_s': time.time() - t0, 'diags': [], 'json': None,
                 'raw': ''}
